@@ -14,7 +14,8 @@
      iteration order is hash order in Python, so every comparison of such an
      enumeration with the implementation is a set comparison;
    - `del d[k]` of an absent key (KeyError in Python) is a no-op here; the
-     invariant theorems show it does not happen. *)
+     invariant theorems show it does not happen.
+   The model follows the code after the repairs of findings F10 and F10b. *)
 From RV Require Export Base.Quads Store.PyDict.
 
 (* ------------------------------------------------------------------ *)
@@ -156,8 +157,16 @@ Definition mem_ctxs (m : mem) (t : triple) : ctxd :=
   | None => match m_def m with Some d => d | None => [] end
   end.
 
-(* __triple_has_context *)
-Definition mem_has_ctx (m : mem) (t : triple) (k : ckey) : bool := memb ckey_eqb k (mem_ctxs m t).
+(* __triple_has_context (as repaired for finding F10): a triple without an entry
+   of its own has the default contexts only while it is still indexed *)
+Definition mem_has_ctx (m : mem) (t : triple) (k : ckey) : bool :=
+  match pd_get triple_eqb t (m_tc m) with
+  | Some d => memb ckey_eqb k d
+  | None => if mem_leaf m t then memb ckey_eqb k (match m_def m with Some d => d | None => [] end) else false
+  end.
+
+(* the historical __triple_has_context: ctx in tripleContexts.get(t, defaultContexts) *)
+Definition hist_has_ctx (m : mem) (t : triple) (k : ckey) : bool := memb ckey_eqb k (mem_ctxs m t).
 
 (* what the property calls "t is in graph c" *)
 Definition mem_holds (m : mem) (c : cid) (t : triple) : bool :=
@@ -215,7 +224,8 @@ Definition mem_del_leaf (m : mem) (t : triple) : mem :=
 
 (* the body of the loop of Memory.remove for one triple, context given *)
 Definition mem_remove1 (c : cid) (m : mem) (t : triple) : mem :=
-  let m1 := if mem_has_ctx m t (Some c) then mem_rem_ctx m t (Some c) else m in
+  (* for ctx in self.__get_context_for_triple(triple): if req_ctx != ctx: continue; remove *)
+  let m1 := if memb ckey_eqb (Some c) (mem_ctxs m t) then mem_rem_ctx m t (Some c) else m in
   let ctxs := mem_ctxs m1 t in
   let m2 := if memb ckey_eqb None ctxs && Nat.eqb (length ctxs) 1 then mem_rem_ctx m1 t None else m1 in
   if Nat.eqb (length (mem_ctxs m2 t)) 0 then mem_del_leaf m2 t else m2.
@@ -318,17 +328,23 @@ Definition g_set (w : world) (g : handle) (t : triple) : world :=
 Definition g_iadd (w : world) (g h : handle) : world :=
   fold_left (fun w t => g_add w g t) (g_triples w h all_pat) w.
 
-(* for triple in other: self.remove(triple).
-   When both graphs live in the same SimpleMemory store the generator walks the
-   live dicts: after the first removal its next step raises RuntimeError
-   ("dictionary changed size during iteration").  true = raised. *)
-Definition g_isub (w : world) (g h : handle) : world * bool :=
+(* for triple in other: self.remove(triple).  Both stores snapshot the key lists
+   (resp. the triple set) they walk, a removed triple is never revisited and
+   removing one triple does not touch another: the generator's output is the
+   list computed up front, also when both graphs live in the same store. *)
+Definition g_isub (w : world) (g h : handle) : world :=
+  fold_left (fun w t => g_remove w g (pat_of t)) (g_triples w h all_pat) w.
+
+(* Before the repair of finding F10b SimpleMemory.triples walked the live dicts:
+   with both graphs in one SimpleMemory store the step after the first removal
+   raised RuntimeError ("dictionary changed size during iteration").  true = raised. *)
+Definition g_isub_hist (w : world) (g h : handle) : world * bool :=
   if Bool.eqb (h_store g) (h_store h) && st_simple (w_get w (h_store g)) then
     match g_triples w h all_pat with
     | [] => (w, false)
     | t :: _ => (g_remove w g (pat_of t), true)
     end
-  else (fold_left (fun w t => g_remove w g (pat_of t)) (g_triples w h all_pat) w, false).
+  else (g_isub w g h, false).
 
 (* the result of a binary operator is a new Graph() on a new default store *)
 Definition fresh_cid : cid := 0%N.
@@ -355,7 +371,7 @@ Definition g_step (w : world) (o : gop) : world * bool * list triple :=
   | GRemove g p => (g_remove w g p, false, [])
   | GSet g t => (g_set w g t, false, [])
   | GIAdd g h => (g_iadd w g h, false, [])
-  | GISub g h => let '(w', r) := g_isub w g h in (w', r, [])
+  | GISub g h => (g_isub w g h, false, [])
   | GBin b g h => (w, false, g_bin b w g h)
   end.
 
@@ -486,23 +502,7 @@ Fixpoint spec_run (c : case) (S : qset) (ops : list (gop * triple)) (ob : obs) :
 
 Definition spec_ok (c : case) (ob : obs) : bool := spec_run c [] (c_ops c) ob.
 
-(* Known finding F10b: `g -= h` with g and h in the same SimpleMemory store and h
-   not empty raises RuntimeError after removing one triple. *)
 Definition store_simple (c : case) (b : bool) : bool := if b then c_simple1 c else c_simple0 c.
-
-Fixpoint kf_run (c : case) (S : qset) (ops : list (gop * triple)) : N :=
-  match ops with
-  | [] => 0%N
-  | (o, _) :: r =>
-      let hit := match o with
-                 | GISub g h => Bool.eqb (h_store g) (h_store h) && store_simple c (h_store g)
-                                && negb (is_nil (sp_content S (scid c h)))
-                 | _ => false
-                 end in
-      if hit then 1%N else kf_run c (spec_step c S o) r
-  end.
-
-Definition kf (c : case) : N := kf_run c [] (c_ops c).
 
 (* well-formed cases: graph objects sharing an identifier object have the same
    store key (same identifier) *)
